@@ -1,5 +1,5 @@
 import Utcp.Lemmas.Keeps
-import Utcp.Props.C03
+import Utcp.Lemmas.Partial
 /-!
 # What the bunch loop of `ReceivedPacket` appends to the log, for any event predicate that tolerates it
 
@@ -59,7 +59,7 @@ theorem mergePartial_adds (c : Conn) (x : Channel) (b : Bunch) : Adds isFreeNode
 
 theorem available_nonempty (c : Conn) (x : Channel) (b : Bunch) (h : (mergePartial c x b).2.2.1 = .available) :
     1 ≤ (mergePartial c x b).2.1.inPartial.length := by
-  obtain ⟨_, _, h3, _⟩ := Props.C03.available_iff c x b h
+  obtain ⟨_, _, h3, _⟩ := Partial.available_iff c x b h
   rw [h3]; simp
 
 /-- `ReceivedNextBunch`: at most one callback, with `1 ≤ count ≤ 256` (an over-long group is dropped instead) -/
